@@ -57,7 +57,7 @@ def main():
     proved = chk.prove('I18n.Props.C09', generated=())
     extra = []
     if os.path.exists(common.driver_path()):
-        nf = 250 if chk.thorough else 30
+        nf = 250 if chk.thorough else 60
         files = [f[0] for f in P.wellformed_files(chk.rng, nf, bad_bytes=0.1)] + P.seed_files()
         mal = P.malformed_stream(chk.rng, files, 400 if chk.thorough else 120, 60000 if chk.thorough else 5000, word_files=None)
         dis, outs, kept = P.run_parse_stream(chk, 'mo-malformed', mal)
@@ -72,7 +72,7 @@ def main():
     else:
         chk.broken.append({'kind': 'correspondence', 'stream': 'mo-malformed', 'problem': 'driver could not be rebuilt'})
     mult = 4 if chk.broken else 1
-    cex, stats = falsify(chk, P, (300 if chk.thorough else 40) * mult, 300 if chk.thorough else 150, (150000 if chk.thorough else 10000) * mult, extra)
+    cex, stats = falsify(chk, P, (300 if chk.thorough else 80) * mult, 300 if chk.thorough else 150, (150000 if chk.thorough else 20000) * mult, extra)
     chk.evaluations += stats['inputs']
     chk.coverage['falsifier'] = dict(stats, found=cex is not None)
     if cex is not None:
